@@ -152,6 +152,12 @@ fn add_bystander(ms: &mut ModuleSet, n: usize) {
     ms.modules[0].items.push(raw("Zp-Inst ::= Zp-Wrap { BOOLEAN , 7 }", "instance"));
     ms.modules[0].items.push(raw("Zp-Rng { INTEGER : upper-dummy } ::= INTEGER ( 0 .. upper-dummy )", "template"));
     ms.modules[0].items.push(raw("Zp-RngI ::= Zp-Rng { 5 }", "instance"));
+    // an enumeral is looked up in its governing type: a bystander's ENUMERATED whose name is the
+    // tail of the governing type's name and which has an enumeral of the same spelling is not it
+    ms.modules[0].items.push(raw("Zq-SignalColor ::= ENUMERATED { zq-red , zq-green }", "enum"));
+    ms.modules[0].items.push(raw("zq-stop Zq-SignalColor ::= zq-red", "enum-value"));
+    by.items.push(raw("Color ::= ENUMERATED { zq-green , zq-amber , zq-red }", "clash-enum"));
+    by.items.push(raw("SignalColor ::= ENUMERATED { zq-amber , zq-red }", "clash-enum"));
     by.items.push(raw("ElemType ::= OCTET STRING", "clash-type"));
     by.items.push(raw("upper-dummy INTEGER ::= 99", "clash-value"));
     ms.modules.push(by);
